@@ -44,6 +44,11 @@ type c06Handler struct {
 	NoPub   bool  `json:"nopub"`   // added with AddNoPublisherHandler
 	// how the subscriber's own Close() behaves: "" returns once its channel is closed; "settled" first waits until
 	// every message it handed out is settled; "slow" first sleeps SubCloseMs; "forever" blocks until the scenario is over
+	// how the handler function ends per message (cyclic): "" nil error, "err" returns an error, "panic" panics (recovered by
+	// handleMessage), "puberr" returns an output whose Publish fails; the subscriber's / publisher's Close() may return an error
+	Outcome     []string `json:"outcome,omitempty"`
+	SubCloseErr bool     `json:"sub_close_err,omitempty"`
+	PubCloseErr bool     `json:"pub_close_err,omitempty"`
 	SubClose   string `json:"sub_close,omitempty"`
 	SubCloseMs int    `json:"sub_close_ms,omitempty"`
 }
@@ -104,6 +109,7 @@ type c06Sub struct {
 
 	closeMode string
 	closeMs   int
+	closeErr  bool
 	handed    []*message.Message // messages the pump took
 	release   chan struct{}      // closed by the driver when the scenario is over: a blocked Close() gives up
 }
@@ -176,6 +182,9 @@ func (s *c06Sub) Close() error {
 	if subscribed {
 		<-s.chClosed
 	}
+	if s.closeErr {
+		return fmt.Errorf("scripted subscriber close error")
+	}
 	return nil
 }
 
@@ -213,9 +222,11 @@ func (s *c06Sub) counts() (closes, subs int) {
 }
 
 type c06Pub struct {
-	h      string
-	mu     sync.Mutex
-	closes int
+	h        string
+	mu       sync.Mutex
+	closes   int
+	fail     map[string]bool // source message uuids whose Publish fails
+	closeErr bool
 }
 
 func (p *c06Pub) Publish(topic string, msgs ...*message.Message) error {
@@ -225,6 +236,12 @@ func (p *c06Pub) Publish(topic string, msgs ...*message.Message) error {
 	}
 	verifhook.At("api.pub.call", p.h, src)
 	verifhook.At("api.pub.ret", p.h, src)
+	p.mu.Lock()
+	fail := p.fail[src]
+	p.mu.Unlock()
+	if fail {
+		return fmt.Errorf("scripted publish error")
+	}
 	return nil
 }
 
@@ -233,6 +250,9 @@ func (p *c06Pub) Close() error {
 	p.closes++
 	verifhook.At("api.pub.close", p.h)
 	p.mu.Unlock()
+	if p.closeErr {
+		return fmt.Errorf("scripted publisher close error")
+	}
 	return nil
 }
 
@@ -292,7 +312,8 @@ func c06Run(rt *hookrt.Runtime, sc *c06Scenario) {
 		hname := fmt.Sprintf("h%d", h)
 		subs[h] = newC06Sub(hname, spec.Honour)
 		subs[h].closeMode, subs[h].closeMs = spec.SubClose, spec.SubCloseMs
-		pubs[h] = &c06Pub{h: hname}
+		subs[h].closeErr = spec.SubCloseErr
+		pubs[h] = &c06Pub{h: hname, closeErr: spec.PubCloseErr}
 		fn := func(msg *message.Message) ([]*message.Message, error) {
 			verifhook.At("api.handler.start", hname, msg.UUID)
 			var k int
@@ -302,7 +323,27 @@ func c06Run(rt *hookrt.Runtime, sc *c06Scenario) {
 					time.Sleep(time.Duration(d) * time.Millisecond)
 				}
 			}
-			verifhook.At("api.handler.end", hname, msg.UUID)
+			outcome := "ok"
+			if len(spec.Outcome) > 0 && spec.Outcome[k%len(spec.Outcome)] != "" {
+				outcome = spec.Outcome[k%len(spec.Outcome)]
+			}
+			if outcome == "puberr" && !(spec.Publish && !spec.NoPub) {
+				outcome = "err"
+			}
+			verifhook.At("api.handler.end", hname, msg.UUID, outcome)
+			switch outcome {
+			case "err":
+				return nil, fmt.Errorf("scripted handler error")
+			case "panic":
+				panic("scripted handler panic")
+			case "puberr":
+				pubs[h].mu.Lock()
+				if pubs[h].fail == nil {
+					pubs[h].fail = map[string]bool{}
+				}
+				pubs[h].fail[msg.UUID] = true
+				pubs[h].mu.Unlock()
+			}
 			if spec.Publish && !spec.NoPub {
 				return []*message.Message{message.NewMessage("out-"+msg.UUID, []byte("o"))}, nil
 			}
@@ -618,8 +659,8 @@ func c06Forced(honour bool) []*c06Scenario {
 	var out []*c06Scenario
 	hs := func(publish bool) []c06Handler {
 		return []c06Handler{
-			{Honour: honour, NMsgs: 3, DurMs: []int{0}, Publish: publish},
-			{Honour: honour, NMsgs: 1, DurMs: []int{1}, Publish: false, NoPub: true},
+			{Honour: honour, NMsgs: 3, DurMs: []int{0}, Publish: publish, Outcome: []string{"puberr", "", "err"}, PubCloseErr: true},
+			{Honour: honour, NMsgs: 1, DurMs: []int{1}, Publish: false, NoPub: true, Outcome: []string{map[bool]string{true: "panic", false: "err"}[honour]}, SubCloseErr: true},
 		}
 	}
 	target := c06UUID(0, 1) // the second message of handler 0 is the one that is parked
@@ -764,6 +805,10 @@ func c06Random(rng *rand.Rand) *c06Scenario {
 			}
 			spec.DurMs = append(spec.DurMs, d)
 		}
+		for k := 0; k < 3; k++ {
+			spec.Outcome = append(spec.Outcome, []string{"", "", "", "err", "panic", "puberr"}[rng.Intn(6)])
+		}
+		spec.SubCloseErr, spec.PubCloseErr = rng.Intn(4) == 0, rng.Intn(4) == 0
 		switch rng.Intn(8) {
 		case 0, 1:
 			spec.SubClose = "settled"
